@@ -370,6 +370,25 @@ def step (d : D) (line : String) : D × String :=
             | some v => s!"={cpsOut v}"
             | none => "none"
           finish s' res (match b64 with | some v => s!"={cpsOut v}" | none => "err")
+        else if mode == "early" then
+          -- the reply is handled before ClipboardPop has reached its select (forced schedule): with the hand-off
+          -- written as `select` + time-out case the goroutine waits for the requester; written with `default`
+          -- (or in any other way) the reply would be gone.  Oracle: a solicited reply reaches its requester.
+          if impl.startsWith "not-forced" then (d, "-\t-\t-") else
+          let p := params 1024 b64
+          let want := match b64 with | some v => s!"={cpsOut v}" | none => "err"
+          let s' :=
+            if p.kinds.clipboard == .timeout then run p d.sys [.input q, .clipCall, .step]
+            else if p.kinds.clipboard == .nonblocking then
+              -- `select { case ch <- v: default: }` with nobody waiting: the effect is dropped at once
+              (match next p d.sys (.input q) with
+               | some (.ok s1) => run p { s1 with pend := s1.pend.filter (fun e => match e with | .sendClipboard _ => false | _ => true) } [.clipCall, .clipCancel]
+               | _ => none)
+            else none
+          let res := match s'.bind (·.clipGot.getLast?) with
+            | some v => s!"={cpsOut v}"
+            | none => "err"
+          finish s' res want
         else finish (run (params 1024 none) d.sys [.clipCall, .clipCancel]) "err" "err"
       | none => (d, "bad-op\tbad-op\tbad-op")
     | _, _ => (d, "bad-op\tbad-op\tbad-op")
